@@ -74,7 +74,28 @@ NextMatches(o) ==
   LET blk == opq'[o][Len(opq'[o])]
       h == cx.ops[o][Posted(o) + 1] IN
   /\ Size(blk.inv[1].data) = h.n /\ (h.done = 1) = blk.inv[1].done /\ ErrClass(blk.inv[1].err) = h.err
+\*  (0) Every delivery the library posts must be the operation's next recorded one (op_q is
+\*      FIFO): a wrong guess dies where it is made, not when its handler record comes up.
 FinalErr(o) == LET hs == cx.ops[o] IN IF hs = <<>> THEN 0 ELSE hs[Len(hs)].err
+RECURSIVE FlatInv(_)
+FlatInv(q) == IF q = <<>> THEN <<>> ELSE q[1].inv \o FlatInv(Tail(q))
+PostsOk ==
+  \A o \in Ops : (op[o].st # "none" /\ ~op[o].conv) =>
+     LET f == FlatInv(opq[o])
+         hs == cx.ops[o] IN
+     /\ ninv[o] + Len(f) <= Len(hs)
+     /\ \A j \in 1 .. Len(f) :
+          LET h == hs[ninv[o] + j] IN
+          /\ Size(f[j].data) = h.n /\ f[j].done = (h.done = 1) /\ f[j].null = (h.null = 1)
+          /\ ErrClass(f[j].err) = h.err
+\*      Under the strict reading of STOP an operation that is cancelled moves no byte after the
+\*      flag is visible (a system call already in flight excepted): at that moment it has moved
+\*      exactly what its recorded history adds up to.
+StopPrune2 == Liberal # "no" \/
+  \A o \in Ops : (op[o].st \in {"chq", "created", "sq", "listed"} /\ FinalErr(o) = 2) =>
+     \/ op[o].total = cx.tot[o]
+     \/ /\ pend[op[o].dir].o = o /\ pend[op[o].dir].res = "perform"      \* the call in flight adds its chunk
+        /\ (cx.tot[o] - op[o].total) \in TraceK(o, INF)
 StopPrune == Liberal # "no" \/
              \A o \in Ops : op[o].st \in {"chq", "created", "sq", "listed"} => FinalErr(o) # 0
 \* without a STOP in the execution an operation that ends with ECANCELED was turned away at the
@@ -145,7 +166,7 @@ TClose == Ev("Close") /\ Consume /\ CClose
 TRelease == Ev("Release") /\ Consume /\ CRelease
 TStopCall == /\ Ev("StopCall") /\ l' = l + 1 /\ stopping' = TRUE /\ UNCHANGED <<cxi, vars>>
 \* _dispatch_io_stop sets DIO_STOPPED and enqueues its block somewhere inside the call
-TStopEffect == /\ stopping /\ ~stopCall /\ Silent /\ StopPrune /\ CStop /\ UNCHANGED cstate
+TStopEffect == /\ stopping /\ ~stopCall /\ Silent /\ StopPrune /\ StopPrune2 /\ CStop /\ UNCHANGED cstate
 TStopRet == /\ Ev("StopRet") /\ stopCall /\ l' = l + 1 /\ stopping' = FALSE /\ UNCHANGED <<cxi, vars>>
 
 (* ------------------------------ library records ------------------------------ *)
